@@ -1,5 +1,517 @@
+/-
+Helper lemmas for `Bolt.Props.C04BktMove` (`Bkt.moveAt`, the move of a fully opened nested bucket):
+monotonicity of the invariants in the fuel, fuel/path/`orig`-independence of a fully opened
+bucket, what `modifyBk` leaves of the other paths, the local effect of the insertion of the moved
+bucket into the destination, and the reference model's `apiMoveBucket` on abstractions.
+-/
 import Bolt.Lemmas.BktTx
 namespace Bolt.Bkt.BktMoveL
-open Bolt Bolt.BTree Bolt.Bkt
+open Bolt Bolt.BTree Bolt.Bkt Bolt.Bkt.BktOpsL
+
+/-! ### the fuel -/
+
+theorem origOk_mono (ids : Bool) : ∀ (f : Nat) (b : Bk), origOkG ids f b = true → ∀ f', f ≤ f' →
+    origOkG ids f' b = true
+  | 0, b, h, _, _ => by rw [origOkG_zero] at h; cases h
+  | f+1, b, h, 0, hle => by omega
+  | f+1, b, h, f'+1, hle => by
+    obtain ⟨h1, h2, h3, h4, h5⟩ := (origOkG_succ ..).mp h
+    apply (origOkG_succ ..).mpr
+    exact ⟨h1, h2, by omega, h4, fun q hq => origOk_mono ids f q.2 (h5 q hq) f' (by omega)⟩
+
+theorem curOk_mono (orig : Bk) : ∀ (f : Nat) (path : List Bytes) (b : Bk), curOk orig f path b = true →
+    ∀ f', f ≤ f' → curOk orig f' path b = true
+  | 0, path, b, h, _, _ => by rw [curOk_zero] at h; cases h
+  | f+1, path, b, h, 0, hle => by omega
+  | f+1, path, b, h, f'+1, hle => by
+    obtain ⟨c1, c2, c3, c4, c5, c6, c7⟩ := (curOk_succ ..).mp h
+    apply (curOk_succ ..).mpr
+    exact ⟨c1, c2, c3, by omega, c5,
+      fun q hq => ⟨(c6 q hq).1, curOk_mono orig f _ q.2 (c6 q hq).2 f' (by omega)⟩, c7⟩
+
+/-- the abstraction of a well-formed bucket does not depend on the fuel once it suffices -/
+theorem absBk_fuel (orig : Bk) : ∀ (f : Nat) (path : List Bytes) (b : Bk), curOk orig f path b = true →
+    origOkG true (f + path.length) orig = true → ∀ f', f ≤ f' →
+    absBk orig f' path b = absBk orig f path b
+  | 0, path, b, h, _, _, _ => by rw [curOk_zero] at h; cases h
+  | f+1, path, b, h, ho, 0, hle => by omega
+  | f+1, path, b, h, ho, f'+1, hle => by
+    obtain ⟨c1, c2, c3, c4, c5, c6, c7⟩ := (curOk_succ ..).mp h
+    rw [absBk_eq, absBk_eq, entsA_succ, entsA_succ]
+    congr 1
+    apply List.map_congr_left
+    intro i hi
+    apply absIt_congr
+    intro hf
+    unfold subV
+    cases hl : lookupBk i.key b.opened with
+    | some c =>
+      simp only
+      have hq := c6 _ (lookupBk_mem hl)
+      refine absBk_fuel orig f (path ++ [i.key]) c hq.2 ?_ f' (by omega)
+      rw [List.length_append, List.length_singleton]
+      have e : f + (path.length + 1) = f + 1 + path.length := by omega
+      rw [e]; exact ho
+    | none =>
+      simp only
+      cases hb : bkAt (path ++ [i.key]) orig with
+      | none => rfl
+      | some c =>
+        simp only
+        obtain ⟨g', hg', hoc⟩ := origOk_at true _ _ orig c ho hb
+        have e : g' = f := by
+          rw [List.length_append, List.length_singleton] at hg'; omega
+        subst e
+        rw [BktCommitL.absBk_indep true g' c hoc f' (by omega) c []]
+
+/-! ### a bucket opened together with everything nested in it -/
+
+theorem fullyOpened_zero (b : Bk) : fullyOpened 0 b = false := by rw [fullyOpened]
+
+theorem fullyOpened_succ (g : Nat) (b : Bk) : fullyOpened (g+1) b = true ↔
+    ∀ n ∈ bucketNames b.tree, ∃ c, lookupBk n b.opened = some c ∧ fullyOpened g c = true := by
+  cases b with
+  | mk r s t o =>
+    rw [fullyOpened]
+    simp only [List.all_eq_true, Bk.tree, Bk.opened]
+    constructor
+    · intro h n hn
+      have := h n hn
+      cases hl : lookupBk n o with
+      | none => simp only [hl] at this; cases this
+      | some c => simp only [hl] at this; exact ⟨c, rfl, this⟩
+    · intro h n hn
+      obtain ⟨c, hc, hf⟩ := h n hn
+      simp only [hc]; exact hf
+
+/-- well-formedness of a fully opened bucket depends neither on `orig` nor on the path, and
+    holds with any larger fuel -/
+theorem curOk_full (orig orig' : Bk) : ∀ (f g : Nat) (p p' : List Bytes) (c : Bk),
+    fullyOpened g c = true → curOk orig f p c = true → ∀ f', f ≤ f' → curOk orig' f' p' c = true
+  | 0, _, p, _, c, _, h, _, _ => by rw [curOk_zero] at h; cases h
+  | f+1, 0, _, _, c, h, _, _, _ => by rw [fullyOpened_zero] at h; cases h
+  | f+1, g+1, p, p', c, hfo, hc, 0, hle => by omega
+  | f+1, g+1, p, p', c, hfo, hc, f'+1, hle => by
+    obtain ⟨c1, c2, c3, c4, c5, c6, c7⟩ := (curOk_succ ..).mp hc
+    have hall := (fullyOpened_succ g c).mp hfo
+    apply (curOk_succ ..).mpr
+    refine ⟨c1, c2, c3, by omega, c5, ?_, ?_⟩
+    · intro q hq
+      obtain ⟨hq1, hq2⟩ := c6 q hq
+      obtain ⟨c', hc', hfo'⟩ := hall q.1 hq1
+      have hqe : q = (q.1, c') := lookupBk_unique c5 hc' q hq rfl
+      have e : c' = q.2 := by rw [hqe]
+      rw [e] at hfo'
+      exact ⟨hq1, curOk_full orig orig' f g _ _ q.2 hfo' hq2 f' (by omega)⟩
+    · intro n hn
+      obtain ⟨c', hc', _⟩ := hall n hn
+      left; rw [hc']; rfl
+
+/-- … and so does its content -/
+theorem absBk_full (orig orig' : Bk) : ∀ (f g : Nat) (p p' : List Bytes) (c : Bk),
+    fullyOpened g c = true → curOk orig f p c = true → ∀ f', f ≤ f' →
+    absBk orig' f' p' c = absBk orig f p c
+  | 0, _, p, _, c, _, h, _, _ => by rw [curOk_zero] at h; cases h
+  | f+1, 0, _, _, c, h, _, _, _ => by rw [fullyOpened_zero] at h; cases h
+  | f+1, g+1, p, p', c, hfo, hc, 0, hle => by omega
+  | f+1, g+1, p, p', c, hfo, hc, f'+1, hle => by
+    obtain ⟨c1, c2, c3, c4, c5, c6, c7⟩ := (curOk_succ ..).mp hc
+    have hall := (fullyOpened_succ g c).mp hfo
+    rw [absBk_eq, absBk_eq, entsA_succ, entsA_succ]
+    congr 1
+    apply List.map_congr_left
+    intro i hi
+    apply absIt_congr
+    intro hf
+    have hn : i.key ∈ bucketNames c.tree := mem_names.mpr ⟨i, hi, hf, rfl⟩
+    obtain ⟨c', hc', hfo'⟩ := hall i.key hn
+    unfold subV
+    simp only [hc']
+    exact absBk_full orig orig' f g _ _ c' hfo' (c6 _ (lookupBk_mem hc')).2 f' (by omega)
+
+/-! ### the other paths after `modifyBk` -/
+
+theorem modifyBk_cons_some {g : Bk → Option Bk} {n : Bytes} {rest : List Bytes} {b b1 : Bk}
+    (h : modifyBk g (n :: rest) b = some b1) :
+    ∃ ch ch', lookupBk n b.opened = some ch ∧ modifyBk g rest ch = some ch' ∧
+      b1 = b.setOpened (b.opened.map (fun p => if p.1 == n then (p.1, ch') else p)) := by
+  cases hl : lookupBk n b.opened with
+  | none => rw [modifyBk] at h; simp only [hl] at h; cases h
+  | some ch =>
+    rw [modifyBk_cons g n rest b ch hl] at h
+    obtain ⟨ch', hm', e⟩ := Option.map_eq_some_iff.mp h
+    exact ⟨ch, ch', rfl, hm', e.symm⟩
+
+/-- a modification at `src` that keeps every cache entry but `k`: a bucket at a path that is not
+    `src` and does not go through `src ++ [k]` is still there, with the same tree and sequence -/
+theorem bkAt_modify_other (g : Bk → Option Bk) (k : Bytes)
+    (hg : ∀ b b', g b = some b' → ∀ m, m ≠ k → lookupBk m b'.opened = lookupBk m b.opened) :
+    ∀ (src dst : List Bytes) (cur cur1 db : Bk), modifyBk g src cur = some cur1 → bkAt dst cur = some db →
+      dst ≠ src → isPrefixOf (src ++ [k]) dst = false →
+      ∃ db1, bkAt dst cur1 = some db1 ∧ db1.tree = db.tree ∧ db1.seq = db.seq
+  | [], [], _, _, _, _, _, hne, _ => absurd rfl hne
+  | [], m :: rest, cur, cur1, db, hm, hb, _, hp => by
+    rw [modifyBk_nil] at hm
+    have hmk : m ≠ k := by
+      intro e; subst e
+      simp [isPrefixOf] at hp
+    refine ⟨db, ?_, rfl, rfl⟩
+    rw [bkAt_cons, hg cur cur1 hm m hmk, ← bkAt_cons]; exact hb
+  | n :: srest, [], cur, cur1, db, hm, hb, _, _ => by
+    rw [bkAt_nil] at hb; cases hb
+    obtain ⟨ch, ch', _, _, rfl⟩ := modifyBk_cons_some hm
+    exact ⟨_, rfl, setOpened_tree .., setOpened_seq ..⟩
+  | n :: srest, m :: drest, cur, cur1, db, hm, hb, hne, hp => by
+    obtain ⟨ch, ch', hl, hm', rfl⟩ := modifyBk_cons_some hm
+    by_cases hmn : m = n
+    · subst hmn
+      obtain ⟨dh, hd1, hd2⟩ := bkAt_cons_some hb
+      rw [hl] at hd1; cases hd1
+      have hp' : isPrefixOf (srest ++ [k]) drest = false := by
+        simpa [isPrefixOf] using hp
+      obtain ⟨db1, h1, h2, h3⟩ := bkAt_modify_other g k hg srest drest ch ch' db hm' hd2
+        (fun e => hne (by rw [e])) hp'
+      refine ⟨db1, ?_, h2, h3⟩
+      rw [bkAt_cons, setOpened_opened, lookupBk_replace, if_pos rfl, hl]; exact h1
+    · refine ⟨db, ?_, rfl, rfl⟩
+      rw [bkAt_cons, setOpened_opened, lookupBk_replace, if_neg hmn, ← bkAt_cons]; exact hb
+
+/-! ### the two steps of `moveAt` -/
+
+/-- the element `k` and its cache entry leave the source bucket -/
+def delG (fu : Nat) (k : Bytes) (b : Bk) : Option Bk :=
+  (modifyAt (leafDel k) (searchPath k fu b.tree) b.tree).map (fun t =>
+    (b.setTree t).setOpened (b.opened.filter (fun p => !(p.1 == k))))
+
+/-- the element `k` (a bucket element with value `v`) and the cache entry `c` enter the destination -/
+def insG (fu : Nat) (k v : Bytes) (c : Bk) (b : Bk) : Option Bk :=
+  (modifyAt (leafPutF k v 1) (searchPath k fu b.tree) b.tree).map (fun t =>
+    (b.setTree t).setOpened (b.opened.filter (fun p => !(p.1 == k)) ++ [(k, c)]))
+
+theorem moveAt_eq (fu : Nat) (src : List Bytes) (k : Bytes) (dst : List Bytes) (cur : Bk) :
+    moveAt fu src k dst cur =
+      match bkAt src cur, bkAt dst cur with
+      | some sb, some db =>
+        match seekItem k fu sb.tree with
+        | some it =>
+          if it.key = k ∧ it.flags % 2 = 1 then
+            if src = dst then none else
+            if (match seekItem k fu db.tree with | some dit => dit.key == k | none => false) then none else
+            if isPrefixOf (src ++ [k]) dst then none else
+            match lookupBk k sb.opened with
+            | none => none
+            | some c =>
+              if !fullyOpened fu c then none else
+              (modifyBk (delG fu k) src cur).bind (fun cur1 => modifyBk (insG fu k it.val c) dst cur1)
+          else none
+        | none => none
+      | _, _ => none := rfl
+
+theorem delG_lookup (fu : Nat) (k : Bytes) (b b' : Bk) (h : delG fu k b = some b') (m : Bytes) (hm : m ≠ k) :
+    lookupBk m b'.opened = lookupBk m b.opened := by
+  unfold delG at h
+  obtain ⟨t, _, rfl⟩ := Option.map_eq_some_iff.mp h
+  rw [setOpened_opened, lookupBk_deleted k m _ hm]
+
+/-- the destination bucket after the moved bucket `c` went in -/
+theorem insert_local (orig : Bk) (fu f : Nat) (path : List Bytes) (b : Bk) (k v : Bytes) (c : Bk)
+    (hc : curOk orig (f+1) path b = true) (hdf : depth b.tree ≤ fu) (hk : k ≠ [])
+    (hfind : (flatten b.tree).find? (fun i => i.key == k) = none)
+    (hcc : curOk orig f (path ++ [k]) c = true) :
+    ∃ b', insG fu k v c b = some b' ∧ curOk orig (f+1) path b' = true ∧ b'.seq = b.seq ∧
+      entsA orig (f+1) path b' =
+        entsInsert k (absBk orig f (path ++ [k]) c) (entsA orig (f+1) path b) := by
+  obtain ⟨c1, c2, c3, c4, c5, c6, c7⟩ := (curOk_succ ..).mp hc
+  obtain ⟨t', e, hin, _, hd, hfl⟩ := OpsL.modify_ok k (leafPutF k v 1)
+    (insSorted { key := k, val := v, flags := 1 }) (leafOK_putF k v 1 hk)
+    (OpsL.loc_insSorted { key := k, val := v, flags := 1 }) fu b.tree true true none none
+    hdf c1 (OpsL.inR_none k)
+  have hnames : ∀ n, n ∈ bucketNames t' ↔ n = k ∨ n ∈ bucketNames b.tree := by
+    intro n
+    rw [bucketNames_eq, bucketNames_eq, hfl]
+    exact names_insBucket { key := k, val := v, flags := 1 } rfl _ hfind n
+  refine ⟨_, by unfold insG; rw [e]; rfl, ?_, ?_, ?_⟩
+  · apply (curOk_succ ..).mpr
+    rw [setOpened_tree, setOpened_opened, setTree_tree]
+    refine ⟨hin, ?_, ?_, by rw [hd]; exact c4, ?_, ?_, ?_⟩
+    · rw [tightN_eq] at c2 ⊢
+      exact RebL.modifyAt_tight (leafPutF_leaf k v 1) _ _ _ e _ c2
+    · rw [OpsL.modifyAt_pgids _ (leafPutF_pgids k v 1) _ _ _ e]; exact c3
+    · rw [List.map_append, List.nodup_append]
+      refine ⟨nodup_filter_names k c5, by simp, ?_⟩
+      intro a ha b' hb'
+      obtain ⟨q, hq, rfl⟩ := List.mem_map.mp ha
+      have := (List.mem_filter.mp hq).2
+      simp only [List.map_cons, List.map_nil, List.mem_singleton] at hb'
+      subst hb'
+      simpa using this
+    · intro q hq
+      rcases List.mem_append.mp hq with hq | hq
+      · obtain ⟨hq1, _⟩ := List.mem_filter.mp hq
+        exact ⟨(hnames _).mpr (Or.inr (c6 q hq1).1), (c6 q hq1).2⟩
+      · simp only [List.mem_singleton] at hq
+        subst hq
+        exact ⟨(hnames _).mpr (Or.inl rfl), hcc⟩
+    · intro n hn'
+      by_cases hnn : n = k
+      · left; subst hnn
+        rw [lookupBk_snoc, if_pos rfl]
+        cases lookupBk n (b.opened.filter _) <;> rfl
+      · rw [lookupBk_created k n _ _ hnn]
+        rcases (hnames n).mp hn' with h' | h'
+        · exact absurd h' hnn
+        · exact c7 n h'
+  · rw [setOpened_seq, setTree_seq]
+  · rw [entsA_succ, entsA_succ, setOpened_tree, setOpened_opened, setTree_tree, hfl,
+      BridgeL.insSorted_map _ (absIt_fst _)]
+    have h1 : (absIt (subV orig f path (b.opened.filter (fun p => !(p.1 == k)) ++ [(k, c)]))
+        { key := k, val := v, flags := 1 }).2 = absBk orig f (path ++ [k]) c := by
+      rw [absIt_bucket _ _ rfl]
+      show subV _ _ _ _ k = _
+      unfold subV
+      have : lookupBk k (b.opened.filter (fun p => !(p.1 == k)) ++ [(k, c)]) = some c := by
+        rw [lookupBk_snoc, lookupBk_filter, if_pos rfl, if_pos rfl]; rfl
+      simp only [this]
+    rw [h1]
+    congr 1
+    apply List.map_congr_left
+    intro i hi
+    apply absIt_congr
+    intro _
+    apply subV_congr
+    apply lookupBk_created
+    have := List.find?_eq_none.mp hfind i hi
+    simpa using this
+
+/-! ### the reference model -/
+
+theorem apiMove_ok (root : SVal) (src dst : List Bytes) (k : Bytes) (s ds0 ms ds : Nat) (e de me de1 : Ents)
+    (h1 : bucketAt src root = some (s, e)) (h2 : bucketAt dst root = some (ds0, de))
+    (h3 : entsLookup e k = some (.bkt ms me)) (h4 : (src == dst) = false) (h5 : entsLookup de k = none)
+    (h6 : isPrefixOf (src ++ [k]) dst = false)
+    (h7 : bucketAt dst (setBucketAt src (s, entsErase k e) root) = some (ds, de1)) :
+    apiMoveBucket root src k dst =
+      .ok (setBucketAt dst (ds, entsInsert k (.bkt ms me) de1) (setBucketAt src (s, entsErase k e) root)) := by
+  unfold apiMoveBucket
+  rw [h1, h2]
+  simp only [h3, h4, h5, h6, h7, Bool.false_eq_true, if_false]
+
+theorem apiMove_err (root : SVal) (src dst : List Bytes) (k : Bytes) (s ds0 ms : Nat) (e de me : Ents)
+    (h1 : bucketAt src root = some (s, e)) (h2 : bucketAt dst root = some (ds0, de))
+    (h3 : entsLookup e k = some (.bkt ms me))
+    (h : (src == dst) = true ∨ (entsLookup de k).isSome = true ∨ isPrefixOf (src ++ [k]) dst = true) :
+    ∃ err, apiMoveBucket root src k dst = .error err := by
+  unfold apiMoveBucket
+  rw [h1, h2]
+  simp only [h3]
+  by_cases h4 : (src == dst) = true
+  · rw [if_pos h4]; exact ⟨_, rfl⟩
+  · rw [if_neg h4]
+    cases h5 : entsLookup de k with
+    | some v => cases v <;> exact ⟨_, rfl⟩
+    | none =>
+      simp only
+      rcases h with h | h | h
+      · exact absurd h h4
+      · rw [h5] at h; cases h
+      · rw [if_pos h]; exact ⟨_, rfl⟩
+
+/-! ### the move -/
+
+/-- what the seek of `moveAt` finds in a well-formed bucket -/
+theorem seek_some {t : N} {fu : Nat} {k : Bytes} {it : Item} (hi : InTx t) (hd : depth t ≤ fu)
+    (hseek : seekItem k fu t = some it) (hk : it.key = k) :
+    (flatten t).find? (fun i => i.key == k) = some it := by
+  rw [OpsL.seek_find k fu t true true none none hd hi (OpsL.inR_none k), hseek]
+  simp [Option.filter, hk]
+
+theorem seek_noKey {t : N} {fu : Nat} {k : Bytes} (hi : InTx t) (hd : depth t ≤ fu) :
+    (match seekItem k fu t with | some dit => dit.key == k | none => false) =
+      ((flatten t).find? (fun i => i.key == k)).isSome := by
+  rw [OpsL.seek_find k fu t true true none none hd hi (OpsL.inR_none k)]
+  cases seekItem k fu t with
+  | none => rfl
+  | some dit =>
+    by_cases h : dit.key = k
+    · simp [Option.filter, h]
+    · simp [Option.filter, h]
+
+/-- the move of a fully opened bucket, once the checks of `moveAt` have passed -/
+theorem move_core (fu : Nat) (orig cur : Bk) (src dst : List Bytes) (k : Bytes) (sb db : Bk) (it : Item)
+    (c : Bk) (hw : WF fu orig cur) (hs : bkAt src cur = some sb) (hd : bkAt dst cur = some db)
+    (hseek : seekItem k fu sb.tree = some it) (hk : it.key = k) (hfl : it.flags % 2 = 1)
+    (hne : src ≠ dst)
+    (hdk : (match seekItem k fu db.tree with | some dit => dit.key == k | none => false) = false)
+    (hpre : isPrefixOf (src ++ [k]) dst = false)
+    (hc : lookupBk k sb.opened = some c) (hfo : fullyOpened fu c = true) :
+    ∃ cur1 cur', modifyBk (delG fu k) src cur = some cur1 ∧
+      modifyBk (insG fu k it.val c) dst cur1 = some cur' ∧
+      ∃ fu', fu ≤ fu' ∧ WF fu' orig cur' ∧
+        apiMoveBucket (absTop fu orig cur) (topName :: src) k (topName :: dst) = .ok (absTop fu' orig cur') := by
+  obtain ⟨ho, hcur⟩ := hw
+  obtain ⟨fs, hfs, hcs, hbas, hmods, _, _, _⟩ := frame fu orig cur src sb hcur hs
+  obtain ⟨fd, hfd, hcd, hbad, _, _, _, _⟩ := frame fu orig cur dst db hcur hd
+  obtain ⟨s1, s2, s3, s4, s5, s6, s7⟩ := (curOk_succ ..).mp hcs
+  obtain ⟨d1, d2, d3, d4, d5, d6, d7⟩ := (curOk_succ ..).mp hcd
+  have hfindS := seek_some s1 (by omega) hseek hk
+  have hdelEq : deleteAt fu k sb = delG fu k sb := by
+    unfold deleteAt delG
+    rw [hseek]
+    exact if_pos ⟨hk, hfl⟩
+  rcases delete_local orig fu fs src sb k hcs (by omega) with ⟨_, h2⟩ | ⟨b', i, e, _, _, hcb', hseq, hents⟩
+  · exact absurd hfl (h2 it hfindS)
+  rw [hdelEq] at e
+  obtain ⟨cur1, hm1, hc1, hb1, habs1⟩ := hmods _ b' e hcb'
+  -- the destination is still there
+  obtain ⟨db1, hd1, ht1, hq1⟩ := bkAt_modify_other (delG fu k) k (delG_lookup fu k) src dst cur cur1 db hm1 hd
+    (Ne.symm hne) hpre
+  -- more fuel for the new nesting depth
+  have hc1' : curOk orig (fu + dst.length + 1) [] cur1 = true := curOk_mono orig fu [] cur1 hc1 _ (by omega)
+  have ho' : origOk (fu + dst.length + 1) orig = true := origOk_mono true fu orig ho _ (by omega)
+  have habsF : absBk orig (fu + dst.length + 1) [] cur1 = absBk orig fu [] cur1 :=
+    absBk_fuel orig fu [] cur1 hc1 ho _ (by omega)
+  obtain ⟨fd', hfd', hcd', hbad', hmodd, _, _, _⟩ := frame (fu + dst.length + 1) orig cur1 dst db1 hc1' hd1
+  have efd : fd' = fu := by omega
+  subst efd
+  -- the moved bucket at its new place
+  have hcsrc := (s6 _ (lookupBk_mem hc)).2
+  have hcdst : curOk orig fd' (dst ++ [k]) c = true :=
+    curOk_full orig orig fs fd' _ _ c hfo hcsrc fd' (by omega)
+  have habsc : absBk orig fd' (dst ++ [k]) c = absBk orig fs (src ++ [k]) c :=
+    absBk_full orig orig fs fd' _ _ c hfo hcsrc fd' (by omega)
+  have hfindD : (flatten db.tree).find? (fun i => i.key == k) = none := by
+    rw [seek_noKey d1 (by omega)] at hdk
+    cases hf : (flatten db.tree).find? (fun i => i.key == k) with
+    | none => rfl
+    | some x => rw [hf] at hdk; cases hdk
+  have hkne : k ≠ [] :=
+    hk ▸ (OpsL.inTxN_range sb.tree true true none none s1 it (List.mem_of_find?_eq_some hfindS)).1
+  obtain ⟨b'', e2, hcb'', hseq2, hents2⟩ := insert_local orig fd' fd' dst db1 k it.val c hcd'
+    (by rw [ht1]; omega) hkne (by rw [ht1]; exact hfindD) hcdst
+  obtain ⟨cur', hm2, hc2, _, habs2⟩ := hmodd _ b'' e2 hcb''
+  refine ⟨cur1, cur', hm1, hm2, fd' + dst.length + 1, by omega, ⟨ho', hc2⟩, ?_⟩
+  -- the reference model
+  have hr1 : absTop (fd' + dst.length + 1) orig cur1 = absTop fd' orig cur1 := by unfold absTop; rw [habsF]
+  rw [hr1, habs1, hseq, hents] at hbad'
+  rw [habs2, hseq2, hents2, habsc, hr1, habs1, hseq, hents, absBk_eq]
+  have hnS : k ∈ (flatten sb.tree).filterMap bktName := (s6 _ (lookupBk_mem hc)).1
+  have hlk : entsLookup (entsA orig (fs + 1) src sb) k =
+      some (.bkt c.seq (entsA orig fs (src ++ [k]) c)) := by
+    rw [entsA_succ, lookup_abs_bucket _ (inTx_sorted s1) hnS]
+    unfold subV
+    simp only [hc]
+    rw [absBk_eq]
+  have hlkD : entsLookup (entsA orig (fd + 1) dst db) k = none := by
+    rw [entsA_succ, lookup_abs, hfindD]; rfl
+  exact apiMove_ok _ _ _ k _ _ _ _ _ _ _ _ hbas hbad hlk (by simpa using hne) hlkD
+    (by simpa [isPrefixOf] using hpre) hbad'
+
+/-- `moveAt` accepted: the reference model moves the same bucket -/
+theorem move_accepted (fu : Nat) (orig cur cur' : Bk) (src dst : List Bytes) (k : Bytes)
+    (hw : WF fu orig cur) (h : moveAt fu src k dst cur = some cur') :
+    ∃ fu', fu ≤ fu' ∧ WF fu' orig cur' ∧
+      apiMoveBucket (absTop fu orig cur) (topName :: src) k (topName :: dst) = .ok (absTop fu' orig cur') := by
+  rw [moveAt_eq] at h
+  cases hs : bkAt src cur with
+  | none => rw [hs] at h; cases h
+  | some sb =>
+  cases hd : bkAt dst cur with
+  | none => rw [hs, hd] at h; cases h
+  | some db =>
+  rw [hs, hd] at h
+  simp only at h
+  cases hseek : seekItem k fu sb.tree with
+  | none => rw [hseek] at h; cases h
+  | some it =>
+  rw [hseek] at h
+  simp only at h
+  by_cases hkf : it.key = k ∧ it.flags % 2 = 1
+  · rw [if_pos hkf] at h
+    by_cases hne : src = dst
+    · rw [if_pos hne] at h; cases h
+    rw [if_neg hne] at h
+    cases hdk : (match seekItem k fu db.tree with | some dit => dit.key == k | none => false) with
+    | true => rw [hdk, if_pos rfl] at h; cases h
+    | false =>
+    rw [hdk, if_neg Bool.false_ne_true] at h
+    cases hpre : isPrefixOf (src ++ [k]) dst with
+    | true => rw [hpre, if_pos rfl] at h; cases h
+    | false =>
+    rw [hpre, if_neg Bool.false_ne_true] at h
+    cases hc : lookupBk k sb.opened with
+    | none => rw [hc] at h; cases h
+    | some c =>
+    rw [hc] at h
+    simp only at h
+    cases hfo : fullyOpened fu c with
+    | false => rw [hfo] at h; cases h
+    | true =>
+    rw [hfo] at h
+    obtain ⟨cur1, cur'', hm1, hm2, R⟩ := move_core fu orig cur src dst k sb db it c hw hs hd hseek hkf.1 hkf.2
+      hne hdk hpre hc hfo
+    rw [hm1] at h
+    simp only [Bool.not_true, Bool.false_eq_true, if_false, Option.bind_some] at h
+    rw [hm2] at h
+    cases h
+    exact R
+  · rw [if_neg hkf] at h; cases h
+
+/-- `moveAt` refuses to move an opened and fully opened bucket: the reference model refuses too -/
+theorem move_refusal (fu : Nat) (orig cur : Bk) (src dst : List Bytes) (k : Bytes) (sb db c : Bk)
+    (hw : WF fu orig cur) (hs : bkAt src cur = some sb) (hd : bkAt dst cur = some db)
+    (hc : lookupBk k sb.opened = some c) (hfo : fullyOpened fu c = true)
+    (h : moveAt fu src k dst cur = none) :
+    ∃ e, apiMoveBucket (absTop fu orig cur) (topName :: src) k (topName :: dst) = .error e := by
+  obtain ⟨fs, hfs, hcs, hbas, _, _, _, _⟩ := frame fu orig cur src sb hw.2 hs
+  obtain ⟨fd, hfd, hcd, hbad, _, _, _, _⟩ := frame fu orig cur dst db hw.2 hd
+  obtain ⟨s1, s2, s3, s4, s5, s6, s7⟩ := (curOk_succ ..).mp hcs
+  obtain ⟨d1, d2, d3, d4, d5, d6, d7⟩ := (curOk_succ ..).mp hcd
+  have hnS : k ∈ (flatten sb.tree).filterMap bktName := (s6 _ (lookupBk_mem hc)).1
+  obtain ⟨i, hfi, hfl⟩ := (names_find (inTx_sorted s1)).mp hnS
+  have hsk := OpsL.seek_find k fu sb.tree true true none none (by omega) s1 (OpsL.inR_none k)
+  rw [hfi] at hsk
+  obtain ⟨it, hseek, hk, hit⟩ : ∃ it, seekItem k fu sb.tree = some it ∧ it.key = k ∧ it = i := by
+    cases hsi : seekItem k fu sb.tree with
+    | none => rw [hsi] at hsk; simp at hsk
+    | some y =>
+      rw [hsi] at hsk
+      simp only [Option.filter] at hsk
+      split at hsk
+      · rename_i hy
+        cases hsk
+        exact ⟨_, rfl, by simpa using hy, rfl⟩
+      · cases hsk
+  subst hit
+  have hlk : entsLookup (entsA orig (fs + 1) src sb) k =
+      some (.bkt c.seq (entsA orig fs (src ++ [k]) c)) := by
+    rw [entsA_succ, lookup_abs_bucket _ (inTx_sorted s1) hnS]
+    unfold subV
+    simp only [hc]
+    rw [absBk_eq]
+  by_cases hne : src = dst
+  · exact apiMove_err _ _ _ k _ _ _ _ _ _ hbas hbad hlk (Or.inl (by simp [hne]))
+  cases hdk : (match seekItem k fu db.tree with | some dit => dit.key == k | none => false) with
+  | true =>
+    refine apiMove_err _ _ _ k _ _ _ _ _ _ hbas hbad hlk (Or.inr (Or.inl ?_))
+    rw [seek_noKey d1 (by omega)] at hdk
+    rw [entsA_succ, lookup_abs, Option.isSome_map]; exact hdk
+  | false =>
+  cases hpre : isPrefixOf (src ++ [k]) dst with
+  | true =>
+    exact apiMove_err _ _ _ k _ _ _ _ _ _ hbas hbad hlk (Or.inr (Or.inr (by simpa [isPrefixOf] using hpre)))
+  | false =>
+  exfalso
+  obtain ⟨cur1, cur'', hm1, hm2, _⟩ := move_core fu orig cur src dst k sb db it c hw hs hd hseek hk hfl
+    hne hdk hpre hc hfo
+  rw [moveAt_eq, hs, hd] at h
+  simp only at h
+  rw [hseek] at h
+  simp only at h
+  rw [if_pos ⟨hk, hfl⟩, if_neg hne, hdk, if_neg Bool.false_ne_true, hpre, if_neg Bool.false_ne_true, hc] at h
+  simp only at h
+  rw [hfo, hm1] at h
+  simp only [Bool.not_true, Bool.false_eq_true, if_false, Option.bind_some] at h
+  rw [hm2] at h
+  cases h
 
 end Bolt.Bkt.BktMoveL
